@@ -68,6 +68,13 @@ template <class D, class T, int DIM> struct Linf {
   std::vector<pos_t> gen(vh::Rng& r, int n, int style) { return gen_lattice<T, DIM>(r, n, style); }
   pos_t query(vh::Rng& r, const std::vector<pos_t>& p) const { return gen_query_lattice(r, p); }
 };
+struct L1Huge {        // dist_t = int with distances up to ~2e9 (< INT_MAX): any dist + dist overflows
+  typedef int dist_t; typedef std::array<int, 2> pos_t; static constexpr bool exact = true; static const char* name() { return "L1-huge"; }
+  mutable long long calls = 0;
+  int operator()(const pos_t& a, const pos_t& b) const { ++calls; long long s = std::llabs((long long)a[0] - b[0]) + std::llabs((long long)a[1] - b[1]); return (int)s; }
+  std::vector<pos_t> gen(vh::Rng& r, int n, int) { std::vector<pos_t> p(n); for (auto& q : p) q = {(int)r.below(1000000001) - 500000000, (int)r.below(1000000001) - 500000000}; return p; }
+  pos_t query(vh::Rng& r, const std::vector<pos_t>& p) const { if (!p.empty() && r.coin(0.3)) return p[r.below(p.size())]; return {(int)r.below(1000000001) - 500000000, (int)r.below(1000000001) - 500000000}; }
+};
 struct Hamming {       // dist_t = short: maxbucket = 4 = the default bucket
   typedef short dist_t; typedef uint64_t pos_t; static constexpr bool exact = true; static const char* name() { return "hamming"; }
   mutable long long calls = 0;
@@ -208,12 +215,12 @@ template <class D> static std::string validate_text(const std::string& s, int ma
         if (l == 0 && leaf < 0) return "empty-leaf-node";
         if (ended && leaf != -1) return "leaf-after-end-marker";
         if (leaf == -1) ended = true; }
-      if (bucket == 0) return "leaf-node-with-bucket-0";
     }
   }
   return "";
 }
 
+static std::string g_ksfx;       // appended to oracle keys (regime-specific sections)
 // scale helper for Euclid tolerance (other metrics: 1)
 template <class M> struct HasScale { static double get(const M&) { return 1; } };
 template <> struct HasScale<Euclid> { static double get(const Euclid& m) { return m.scale; } };
@@ -235,11 +242,11 @@ template <class M> static void nn_history(Ctx& c, const char* dname, int n, int 
   NN nn;
   try { nn.Initialize(pts, dist, bucket); }
   catch (const GeographicErr& e) { c.viol("contract:C17/nn/Initialize-threw-on-legal-input", cls, J(w).str("what", e.what())); return; }
-  if (nn.NumPoints() != n) c.viol("oracle:C17/nn/NumPoints", cls, J(w).i("got", nn.NumPoints()));
+  if (nn.NumPoints() != n) c.viol(std::string("oracle:C17/nn/NumPoints") + g_ksfx, cls, J(w).i("got", nn.NumPoints()));
   std::string ref_bin = save_str(nn, 0), ref_txt = save_str(nn, 1);
   {
     std::string v = validate_text<D>(ref_txt, maxbucket);
-    if (!v.empty()) c.viol("oracle:C17/nn/built-tree-structurally-illegal/" + v, cls, w);
+    if (!v.empty()) c.viol(std::string("oracle:C17/nn/built-tree-structurally-illegal/") + g_ksfx + v, cls, w);
     for (int bad : {-1, maxbucket + 1, std::numeric_limits<int>::min(), std::numeric_limits<int>::max()}) {
       bool threw = false;
       try { nn.Initialize(pts, dist, bad); } catch (const GeographicErr&) { threw = true; }
@@ -310,28 +317,28 @@ template <class M> static void nn_history(Ctx& c, const char* dname, int n, int 
       bool sane = true; std::set<int> seen; D prev = 0;
       for (size_t j = 0; j < ind.size() && sane; ++j) {
         int i = ind[j];
-        if (i < 0 || i >= n) { c.viol("oracle:C17/nn/index-out-of-range", cls, J(wq).i("index", i)); sane = false; break; }
-        if (!seen.insert(i).second) { c.viol("oracle:C17/nn/index-returned-twice", cls, J(wq).i("index", i)); sane = false; }
-        if (!(all[i] > mind && all[i] <= maxd)) { c.viol("oracle:C17/nn/result-outside-(mindist,maxdist]", cls, J(wq).i("index", i).str("dist", dstr(all[i]))); sane = false; }
-        if (j && all[i] < prev) { c.viol("oracle:C17/nn/results-not-sorted-by-distance", cls, J(wq).i("pos", (long long)j)); sane = false; }
+        if (i < 0 || i >= n) { c.viol(std::string("oracle:C17/nn/index-out-of-range") + g_ksfx, cls, J(wq).i("index", i)); sane = false; break; }
+        if (!seen.insert(i).second) { c.viol(std::string("oracle:C17/nn/index-returned-twice") + g_ksfx, cls, J(wq).i("index", i)); sane = false; }
+        if (!(all[i] > mind && all[i] <= maxd)) { c.viol(std::string("oracle:C17/nn/result-outside-(mindist,maxdist]") + g_ksfx, cls, J(wq).i("index", i).str("dist", dstr(all[i]))); sane = false; }
+        if (j && all[i] < prev) { c.viol(std::string("oracle:C17/nn/results-not-sorted-by-distance") + g_ksfx, cls, J(wq).i("pos", (long long)j)); sane = false; }
         prev = all[i];
       }
       if (!sane) continue;
-      if (ind.size() > (size_t)std::max(k, 0)) { c.viol("oracle:C17/nn/more-than-k-results", cls, wq); continue; }
-      if (ind.empty() ? !(d0 == (D)-1) : !(d0 == all[ind[0]])) c.viol("oracle:C17/nn/return-value-is-not-the-closest-distance", cls, J(wq).str("returned_d", dstr(d0)));
+      if (ind.size() > (size_t)std::max(k, 0)) { c.viol(std::string("oracle:C17/nn/more-than-k-results") + g_ksfx, cls, wq); continue; }
+      if (ind.empty() ? !(d0 == (D)-1) : !(d0 == all[ind[0]])) c.viol(std::string("oracle:C17/nn/return-value-is-not-the-closest-distance") + g_ksfx, cls, J(wq).str("returned_d", dstr(d0)));
       if (exh && tol == 0) {
         if (M::exact) {
-          if (ind.size() != want) c.viol("oracle:C17/nn/exact/wrong-number-of-results", cls, J(wq).i("want", (long long)want));
+          if (ind.size() != want) c.viol(std::string("oracle:C17/nn/exact/wrong-number-of-results") + g_ksfx, cls, J(wq).i("want", (long long)want));
           else for (size_t j = 0; j < want; ++j) if (!(all[ind[j]] == cand[j].first)) {
-            c.viol("oracle:C17/nn/exact/distance-multiset-differs-from-linear-scan", cls, J(wq).i("pos", (long long)j).str("got", dstr(all[ind[j]])).str("want", dstr(cand[j].first))); break; }
+            c.viol(std::string("oracle:C17/nn/exact/distance-multiset-differs-from-linear-scan") + g_ksfx, cls, J(wq).i("pos", (long long)j).str("got", dstr(all[ind[j]])).str("want", dstr(cand[j].first))); break; }
         } else {
           double worst = 0;
           for (size_t j = 0; j < ind.size() && j < want; ++j) worst = std::max(worst, (double)(all[ind[j]] - cand[j].first));
           c.obs(std::string("nn: excess of returned over true j-th distance [") + M::name() + "] / tolerance", worst / abstol);
-          if (worst > abstol) c.viol("oracle:C17/nn/inexact/distance-worse-than-linear-scan", cls, J(wq).f("excess", worst).f("tol", abstol));
+          if (worst > abstol) c.viol(std::string("oracle:C17/nn/inexact/distance-worse-than-linear-scan") + g_ksfx, cls, J(wq).f("excess", worst).f("tol", abstol));
           if (ind.size() < want) {     // only points within tolerance of the (mindist, maxdist] boundary may be missing
             bool ok = true; for (size_t j = ind.size(); j < cand.size() && ok; ++j) ok = std::fabs((double)(cand[j].first - maxd)) <= abstol || std::fabs((double)(cand[j].first - mind)) <= abstol;
-            if (!ok) c.viol("oracle:C17/nn/inexact/wrong-number-of-results", cls, J(wq).i("want", (long long)want));
+            if (!ok) c.viol(std::string("oracle:C17/nn/inexact/wrong-number-of-results") + g_ksfx, cls, J(wq).i("want", (long long)want));
           }
         }
       } else {
@@ -339,17 +346,20 @@ template <class M> static void nn_history(Ctx& c, const char* dname, int n, int 
         // tol > 0: every in-range point not returned is at distance >= dk - tol (dk = k-th returned distance);
         // fewer than k results: "the search is exact" (all in-range points returned).
         if (ind.size() < want) {
-          if (tol == 0) c.viol("oracle:C17/nn/exhaustive=false/fewer-than-k-but-not-all", cls, J(wq).i("want", (long long)want));
+          // (inexact metrics: points within rounding of the (mindist, maxdist] boundary may legitimately be pruned)
+          bool only_boundary = !M::exact; for (auto& cd : cand) if (!seen.count(cd.second) && !(std::fabs((double)(cd.first - maxd)) <= abstol || std::fabs((double)(cd.first - mind)) <= abstol)) only_boundary = false;
+          if (only_boundary) c.event("inexact metric: boundary point pruned by rounding (accepted)");
+          else if (tol == 0) c.viol(std::string("oracle:C17/nn/exhaustive=false/fewer-than-k-but-not-all") + g_ksfx, cls, J(wq).i("want", (long long)want));
           else {
             // separate, narrow key: pruning with maxdist - tol loses points in (maxdist - tol, maxdist]
             bool only_band = true; for (auto& cd : cand) if (!seen.count(cd.second) && !((long double)cd.first > (long double)maxd - (long double)tol)) only_band = false;
-            if (M::exact || !only_band) c.viol(only_band ? "doc:C17/nn/tol>0/fewer-than-k-results-but-search-not-exact/missed-in-(maxdist-tol,maxdist]"
-                                   : "oracle:C17/nn/tol>0/fewer-than-k-results-but-search-not-exact", cls, J(wq).i("want", (long long)want));
+            if (M::exact || !only_band) c.viol(only_band ? std::string("doc:C17/nn/tol>0/fewer-than-k-results-but-search-not-exact/missed-in-(maxdist-tol,maxdist]")
+                                   : std::string("oracle:C17/nn/tol>0/fewer-than-k-results-but-search-not-exact") + g_ksfx, cls, J(wq).i("want", (long long)want));
           }
-        } else if (tol > 0 && !ind.empty() && ind.size() == (size_t)k) {
+        } else if (exh && tol > 0 && !ind.empty() && ind.size() == (size_t)k) {
           long double dk = all[ind.back()];
           for (auto& cd : cand) if (!seen.count(cd.second) && (long double)cd.first + abstol < dk - (long double)tol) {
-            c.viol("oracle:C17/nn/tol>0/missed-point-closer-than-dk-tol", cls, J(wq).str("missed_dist", dstr(cd.first)).str("dk", dstr((D)dk))); break; }
+            c.viol(std::string("oracle:C17/nn/tol>0/missed-point-closer-than-dk-tol") + g_ksfx, cls, J(wq).str("missed_dist", dstr(cd.first)).str("dk", dstr((D)dk))); break; }
         }
       }
       // the serialised copies answer identically (same tree => same traversal => same indices)
@@ -419,13 +429,14 @@ template <class M> static void sec(Ctx& c, uint64_t idx, const char* dname, int 
 }
 int main(int argc, char** argv) {
   std::vector<Section> S;
-  S.push_back({"L1-int", 420, 20000, true, [](Ctx& c, uint64_t i) { sec<L1<int, int, 2>>(c, i, "int", 5000); }, 120});
-  S.push_back({"Linf-longlong", 420, 20000, true, [](Ctx& c, uint64_t i) { sec<Linf<long long, long long, 3>>(c, i, "longlong", 5000); }, 120});
-  S.push_back({"L1-double-integers", 420, 20000, true, [](Ctx& c, uint64_t i) { sec<L1<double, double, 2>>(c, i, "double", 5000); }, 120});
-  S.push_back({"hamming-short", 420, 20000, true, [](Ctx& c, uint64_t i) { sec<Hamming>(c, i, "short", 5000); }, 120});
-  S.push_back({"discrete-float", 300, 15000, true, [](Ctx& c, uint64_t i) { sec<Discrete>(c, i, "float", 3000); }, 120});
-  S.push_back({"tree-path-longlong", 420, 20000, true, [](Ctx& c, uint64_t i) { sec<TreeMetric>(c, i, "longlong", 5000); }, 120});
-  S.push_back({"euclid-double", 420, 20000, true, [](Ctx& c, uint64_t i) { sec<Euclid>(c, i, "double", 5000); }, 120});
-  S.push_back({"geodesic-double", 180, 10000, true, [](Ctx& c, uint64_t i) { sec<GeodDist>(c, i, "double", 300); }, 300});
+  S.push_back({"L1-int", 420, 6000, true, [](Ctx& c, uint64_t i) { sec<L1<int, int, 2>>(c, i, "int", 5000); }, 120});
+  S.push_back({"Linf-longlong", 420, 6000, true, [](Ctx& c, uint64_t i) { sec<Linf<long long, long long, 3>>(c, i, "longlong", 5000); }, 120});
+  S.push_back({"L1-double-integers", 420, 6000, true, [](Ctx& c, uint64_t i) { sec<L1<double, double, 2>>(c, i, "double", 5000); }, 120});
+  S.push_back({"hamming-short", 420, 6000, true, [](Ctx& c, uint64_t i) { sec<Hamming>(c, i, "short", 5000); }, 120});
+  S.push_back({"discrete-float", 300, 4500, true, [](Ctx& c, uint64_t i) { sec<Discrete>(c, i, "float", 3000); }, 120});
+  S.push_back({"tree-path-longlong", 420, 6000, true, [](Ctx& c, uint64_t i) { sec<TreeMetric>(c, i, "longlong", 5000); }, 120});
+  S.push_back({"L1-int-distances-near-INT_MAX", 60, 900, true, [](Ctx& c, uint64_t i) { g_ksfx = "/distances-near-dist_t-max"; sec<L1Huge>(c, i, "int", 2000); g_ksfx.clear(); }, 120});
+  S.push_back({"euclid-double", 420, 6000, true, [](Ctx& c, uint64_t i) { sec<Euclid>(c, i, "double", 5000); }, 120});
+  S.push_back({"geodesic-double", 180, 2500, true, [](Ctx& c, uint64_t i) { sec<GeodDist>(c, i, "double", 300); }, 300});
   return vh::run_sections(argc, argv, S);
 }
